@@ -1,3 +1,4 @@
+import DSV.FactsOK.SrcC19
 import DSV.Generated.Facts
 import DSV.Props.C19
 /-!
